@@ -2,7 +2,7 @@
 """seedregress.py [ids...]: re-run, on the current /repo HEAD + current /verif, every seeded change against
 the check(s) recorded as catching it; writes seeded/<id>/final.json {applies, checks:{prop: rc}}."""
 import json, os, subprocess, sys, glob, re, time
-WT = "/tmp/regress-wt"
+WT = os.environ.get("REGRESS_WT", "/tmp/regress-wt")
 ids = sys.argv[1:] or sorted(os.path.basename(os.path.dirname(f)) for f in glob.glob("/verif/seeded/*/meta.json"))
 subprocess.run(["git", "-C", "/repo", "worktree", "remove", "--force", WT], capture_output=True)
 subprocess.run(["git", "-C", "/repo", "worktree", "add", "-q", "--detach", WT, "HEAD"], check=True)
